@@ -23,6 +23,7 @@ def cases(draw, max_steps=14):
         r["mult"] = 1
     scn["forcing"]["vel"]["kind"] = draw(st.sampled_from(["shear", "shear", "noise"]))
     scn["grid"]["h"] = draw(st.sampled_from(["noise", "slope"]))
+    scn["grid"]["metric"] = draw(st.sampled_from([None, "varying", "varying"]))  # cell sizes differ between cells
     # flavours: 0, 1 generic; 2 coastal; 3 stage_cross; 4 units_shift; 5 border; 6 empty_gap; 7 dense_release
     flav = draw(st.integers(0, 7))
     if flav == 2:
@@ -241,6 +242,8 @@ def oracle(scn) -> core.CaseResult:
     v = scn["variant"]
     res.cls(v["kind"] + ("_zero_mult" if v.get("zero") else ""))
     res.cls(scn["output"]["layout"])
+    if scn["grid"].get("metric"):
+        res.cls("cell_sizes_vary")
     if scn.get("coastal"):
         res.cls("coastal")
     if scn.get("stage_cross"):
